@@ -430,6 +430,10 @@ fn gen_base(rng: &mut Rng, presigned: bool) -> Base {
         } else {
             rng.pick(&["x-amz-meta-a", "x-amz-meta-b", "x-amz-meta-a", "x-amz-storage-class", "range", "content-md5", "x-custom"])
         };
+        // the backend sink deserialises the operation input, which refuses a repeated metadata header after authentication
+        if backend && headers.iter().any(|(k, _)| k == n) {
+            continue;
+        }
         headers.push((n.to_owned(), rng.pick(&HVALS).to_owned()));
     }
     if rng.chance(1, 4) {
